@@ -467,7 +467,7 @@ class Run:
             pre = task.state.name
             r = run._orig["start"](task, time, variance)
             run.mon.append(
-                {"ev": "start", "t": run.label(task), "time": us(time), "release": us(task.release_time), "remaining": us(task._remaining_time),
+                {"ev": "start", "t": run.label(task), "time": us(time), "release": us(task.release_time), "intended": us(task.intended_release_time), "remaining": us(task._remaining_time),
                  "parents": parents, "terminal": bool(task.terminal), "pre": pre, "now": us(run.sim._simulator_time),
                  "ptime": us(task._scheduler_placement.placement_time) if task._scheduler_placement else None}
             )
@@ -480,7 +480,7 @@ class Run:
 
         def release(task, time=None):
             r = run._orig["release"](task, time)
-            run.mon.append({"ev": "release", "t": run.label(task), "time": us(time), "state": task.state.name})
+            run.mon.append({"ev": "release", "t": run.label(task), "time": us(time), "state": task.state.name, "intended": us(task.intended_release_time)})
             return r
 
         def demand_ok(worker):
